@@ -406,6 +406,22 @@ func (c *ecCtx[P, B, S]) positive(x *engine.X, id string, su ecSuite, suite *ecd
 	}{{"as-signed", b.s, ip(b.v)}, {"neg-s", sig.NegS(c.ref, b.s), ip(b.v ^ 1)}, {"as-signed/no-v", b.s, nil}} {
 		x.Case(id + "/normalise/" + f.label)
 		sg := mk(b.r, f.s, f.v)
+		// a second signature object assembled from the first one's accessor outputs, and a clone: what is done to them
+		// must not reach the object they came from
+		orig := mk(b.r, f.s, f.v)
+		twin, terr := ecdsa.NewSignature(orig.R(), orig.S(), orig.V())
+		if terr != nil {
+			panic(engine.HarnessError{Msg: "NewSignature(sig.R(), sig.S(), sig.V()): " + terr.Error()})
+		}
+		twin.Normalise()
+		orig.Clone().Normalise()
+		if conv.ToBig(orig.S()).Cmp(f.s) != 0 || conv.ToBig(orig.R()).Cmp(b.r) != 0 || (orig.V() == nil) != (f.v == nil) || (f.v != nil && *orig.V() != *f.v) {
+			x.Failf("ecdsa/"+c.name+"/normalise/aliases", "%s: normalising a signature built from sig.R(), sig.S(), sig.V() (or a clone) changed the original (%s): s=%x v=%s, was s=%x v=%s", id, f.label, conv.ToBig(orig.S()), vstr(orig.V()), f.s, vstr(f.v))
+		} else if f.v != nil {
+			if e := vDef.Verify(orig, pk, msg); e != nil {
+				x.Failf("ecdsa/"+c.name+"/normalise/aliases", "%s: after normalising a copy, the untouched original (%s) is rejected: %v", id, f.label, e)
+			}
+		}
 		wasLow := sig.IsLowS(c.ref, f.s)
 		if sg.IsNormalized() != wasLow {
 			x.Failf("ecdsa/"+c.name+"/normalise/predicate", "%s: IsNormalized=%v but s<=n/2 is %v (s=%x)", id, sg.IsNormalized(), wasLow, f.s)
